@@ -204,20 +204,46 @@ def _stmt(node, counter, exc_out):
 # ---------------------------------------------------------------------------------------------------
 # helpers over conditions
 
-def atoms(test, truth):
+class _Unwalrus(ast.NodeTransformer):
+    def visit_NamedExpr(self, node):
+        return ast.copy_location(ast.Name(id=node.target.id, ctx=ast.Load()), node)
+
+
+def _unwalrus(test):
+    """``f(x := e)`` as a fact that holds after the test: a fact about ``x`` (the name then holds that value).  Only when every
+    name is bound at most once in the test and is not read before its binding - otherwise the test is left as written."""
+    bound = [n for n in ast.walk(test) if isinstance(n, ast.NamedExpr)]
+    if not bound:
+        return test
+    names = [n.target.id for n in bound]
+    if len(set(names)) != len(names):
+        return test
+    for b in bound:
+        pos = (b.lineno, b.col_offset)
+        for n in ast.walk(test):
+            if isinstance(n, ast.Name) and n.id == b.target.id and n is not b.target and (n.lineno, n.col_offset) < pos \
+                    and not any(n is x for x in ast.walk(b.value)):
+                return test
+    import copy
+    return ast.fix_missing_locations(_Unwalrus().visit(copy.deepcopy(test)))
+
+
+def atoms(test, truth, _top=True):
     """Decompose a branch decision into atomic (expr, truth) facts that *must* hold.
     ``A and B`` true => A true, B true ; ``A or B`` false => A false, B false ; ``not A``."""
     out = []
+    if _top:
+        test = _unwalrus(test)
     if isinstance(test, ast.UnaryOp) and isinstance(test.op, ast.Not):
-        return atoms(test.operand, not truth)
+        return atoms(test.operand, not truth, False)
     if isinstance(test, ast.BoolOp):
         if isinstance(test.op, ast.And) and truth:
             for v in test.values:
-                out.extend(atoms(v, True))
+                out.extend(atoms(v, True, False))
             return out
         if isinstance(test.op, ast.Or) and not truth:
             for v in test.values:
-                out.extend(atoms(v, False))
+                out.extend(atoms(v, False, False))
             return out
         return [(test, truth)]
     return [(test, truth)]
